@@ -193,19 +193,22 @@ Proof.
     + rewrite !blen_app, !blen_le. lia.
 Qed.
 
-Lemma parse_entries_enc cdims lastc : forall (es : list wentry) (data pre suf : list N) off,
+Lemma parse_entries_enc cdims lastc : forall (es : list wentry) (data pre suf : list N) off i klen,
   all_pos cdims = true -> Forall (fun e => entry_ok (length cdims) e = true) es ->
   length lastc = length cdims -> Forall (fun x => x <= U64MAX) lastc ->
   data = pre ++ flat_map enc_entry es ++ enc_key 0 0 lastc ++ suf -> off = blen pre ->
-  parse_entries (length es) (length cdims) 8 cdims data off
+  i + N.of_nat (length es) < klen ->
+  parse_entries (length es) i klen (length cdims) 8 cdims data off
   = Ok (map (key_of cdims) es ++ [(scaled_of_key cdims lastc, 0, 0)], map w_addr es).
 Proof.
-  induction es as [|e r IH]; intros data pre suf off Hp He Hll Hlc Hd Ho.
+  induction es as [|e r IH]; intros data pre suf off i klen Hp He Hll Hlc Hd Ho Hk.
   - cbn [flat_map app] in Hd. cbn [length parse_entries map app].
     replace (blen data <? off + (8 + 8 * N.of_nat (length cdims))) with false.
     2:{ symmetry. apply N.ltb_ge. subst data off. rewrite !blen_app, blen_enc_key, Hll. lia. }
     destruct (parse_key_enc cdims 0 0 lastc data pre suf off) as (K1 & K2 & K3); auto; try lia.
-    rewrite K1, K2. cbn [obind]. rewrite <- Hll, K3. reflexivity.
+    rewrite K1, K2. cbn [obind]. rewrite <- Hll, K3. cbn [obind].
+    replace (klen <=? i) with false by (symmetry; apply N.leb_gt; cbn [length] in Hk; lia).
+    reflexivity.
   - apply Forall_cons_iff in He as [He0 Her].
     destruct (entry_ok_spec _ _ He0) as (E1 & E2 & E3 & E4).
     cbn [flat_map] in Hd. unfold enc_entry at 1 in Hd. rewrite <- !app_assoc in Hd.
@@ -218,6 +221,7 @@ Proof.
     destruct (parse_key_enc cdims (w_nbytes e) 0 (w_coord e) data pre (le 8 (w_addr e) ++ rest) off)
       as (K1 & K2 & K3); auto; try lia.
     rewrite K1, K2. cbn [obind]. rewrite <- E1 at 1. rewrite K3. cbn [obind].
+    replace (klen <=? i) with false by (symmetry; apply N.leb_gt; cbn [length] in Hk; lia).
     replace (blen data <? off + (8 + 8 * N.of_nat (length cdims)) + 8) with false
       by (symmetry; apply N.ltb_ge; lia).
     rewrite (slice_from_eq data (pre ++ enc_key (w_nbytes e) 0 (w_coord e)) (le 8 (w_addr e) ++ rest)).
@@ -227,6 +231,7 @@ Proof.
     rewrite (IH data (pre ++ enc_key (w_nbytes e) 0 (w_coord e) ++ le 8 (w_addr e)) suf); auto.
     + subst data. unfold rest. now rewrite <- !app_assoc.
     + rewrite !blen_app, blen_enc_key, blen_le, E1. lia.
+    + cbn [length] in Hk. lia.
 Qed.
 
 (* ------------------------------------------------------------------ sorting *)
@@ -269,7 +274,7 @@ Proof. induction es as [|e r IH]; [reflexivity|]. cbn [map app combine]. now rew
 
 Lemma parse_node_leaf cdims es (f pre suf : list N) addr :
   all_pos cdims = true -> Forall (fun e => entry_ok (length cdims) e = true) es ->
-  es <> [] -> N.of_nat (length es) < 65536 ->
+  es <> [] -> N.of_nat (length es) < 65535 ->
   f = pre ++ serialize_leaf (length cdims) es ++ suf -> addr = blen pre ->
   addr + blen (serialize_leaf (length cdims) es) <= MAXINT64 ->
   parse_node f addr 8 (length cdims) cdims
@@ -298,7 +303,7 @@ Proof.
   assert (H4 : rd_le h 6 2 = Ok n).
   { apply (rd_le_eq h (SIG_TREE ++ [1] ++ [0]) 2 2 n (le 8 U64MAX ++ le 8 U64MAX)); auto;
       try (rewrite pow256_2; lia).
-    unfold h, node_header. rewrite wrap16_small by auto. now rewrite <- !app_assoc. }
+    unfold h, node_header. rewrite wrap16_small by lia. now rewrite <- !app_assoc. }
   assert (H5 : slice_from h 8 = Ok (le 8 U64MAX ++ le 8 U64MAX)).
   { apply (slice_from_eq h (SIG_TREE ++ [1] ++ [0] ++ le 2 (wrap16 n))); [|reflexivity].
     unfold h, node_header. now rewrite <- !app_assoc. }
@@ -326,6 +331,7 @@ Proof.
   rewrite (read_bytes_at_app (pre ++ h) body suf _ _ S1 S2 S3 S4).
   unfold n. rewrite Nat2N.id.
   rewrite (parse_entries_enc cdims (repeat U64MAX (length cdims)) es body [] []); auto.
+  4:{ fold n. unfold wrap16. rewrite N.mod_small by lia. lia. }
   - apply repeat_length.
   - apply Forall_forall. intros x Hx. apply repeat_spec in Hx. subst x. unfold U64MAX. lia.
   - unfold body. cbn [app]. now rewrite app_nil_r.
@@ -335,7 +341,7 @@ Qed.
 
 Lemma index_pre_spec cdims es eof : index_pre cdims es eof = true ->
   es <> [] /\ Forall (fun e => entry_ok (length cdims) e = true) es /\ distinct_coords es = true /\
-  N.of_nat (length es) < 65536 /\ all_pos cdims = true /\
+  N.of_nat (length es) < 65535 /\ all_pos cdims = true /\
   eof + blen (serialize_leaf (length cdims) es) <= MAXINT64.
 Proof.
   unfold index_pre. rewrite !andb_true_iff, negb_true_iff, Nat.eqb_neq, N.ltb_lt, N.leb_le, forallb_forall.
